@@ -1,5 +1,6 @@
 (** C07 — A paused service holds requests and releases them intact.
-    Only statements, each closed by [exact]; the proofs are in
+    Only statements, each closed by [exact] (the two refutations: by evaluating the
+    views on the witness trace); the proofs are in
     proofs/M5gateFacts.v, proofs/M5pathFacts.v and proofs/C07SeqFacts.v.
 
     The theorems are about ALL event traces (model/Trace.v) accepted by the
@@ -54,14 +55,7 @@ Theorem c07_outcome : forall tr r e,
          then match state_at (rev (pre ++ ev_read r h :: held)) (h_pc h) with GStopped => AStopped | _ => AProceed end
          else ATimedOut) /\
     (a = AStopped -> status = 503) /\ (a = ATimedOut -> status = 504).
-Proof.
-  intros tr r e Hacc Hin Hp.
-  destruct (parked_story tr r e Hacc Hin Hp) as (h & w & a & status & pre & held & aw & mid & rest & t3 & svc & t5 & who & sb &
-    Htr & Q1 & Q2 & Q3 & P4 & Hq & Q5 & (S1 & S2 & S3) & (W1 & W2 & W3) & Ha & Hs).
-  exists pre, held, aw, mid, rest, h, w, a, status, t3, svc, t5, who, sb.
-  repeat (split; [assumption|]). split; [|split; intros ->; exact Hs].
-  rewrite Ha. unfold action_of. now rewrite W3.
-Qed.
+Proof. exact parked_story_flat. Qed.
 Print Assumptions c07_outcome.
 
 (** The three outcomes, read off [c07_outcome]: with [hb] the history before the
@@ -77,15 +71,7 @@ Theorem c07_outcome_cases : forall (w : wake) (hb : trace) (pc g : nat) (a : gac
   (a = AProceed <-> w_chan w = true /\ state_at hb pc <> GStopped) /\
   (forall st, w_chan w = true -> closer hb g = Some st -> state_at hb pc = st ->
               (a = AProceed <-> st = GRunning) /\ (a = AStopped <-> st = GStopped)).
-Proof.
-  intros w hb pc g a ->. destruct (w_chan w) eqn:Ew.
-  - destruct (state_at hb pc) eqn:Es; (split; [|split; [|split]]);
-      try (split; intros H; try destruct H; try discriminate; try congruence; try (split; [reflexivity|discriminate]); auto; fail).
-    all: intros st _ Hc Hst; subst st; apply closer_not_paused in Hc;
-      split; split; intros H; try discriminate; try reflexivity; try contradiction; congruence.
-  - split; [|split; [|split]]; try (split; intros H; try destruct H; try discriminate; reflexivity).
-    intros st Hf. discriminate.
-Qed.
+Proof. exact outcome_cases. Qed.
 Print Assumptions c07_outcome_cases.
 
 (** * Held: neither forwarded nor failed between the read and the wake *)
@@ -98,14 +84,7 @@ Theorem c07_held_while_paused : forall tr r e,
       (forall svc lb, e_k x <> KPick r svc lb) /\ (forall lb t, e_k x <> KLbClaim lb t r) /\
       (forall t, e_k x <> KClaim t r) /\ (forall t, e_k x <> KClaimRefused t r) /\
       (forall st sb, e_k x <> KRespond r st sb) /\ (forall svc a, e_k x <> KGateResult r svc a).
-Proof.
-  intros tr r e Hacc Hin Hp.
-  destruct (parked_story tr r e Hacc Hin Hp) as (h & w & a & status & pre & held & aw & mid & rest & t3 & svc & t5 & who & sb &
-    Htr & _ & Q2 & _).
-  exists pre, held, (aw ++ mkEv t3 (AReq r) (KGateResult r svc a) :: mid ++ mkEv t5 who (KRespond r status sb) :: rest), h, w.
-  split; [exact Htr|]. intros x Hx. pose proof (quiet_not_in _ _ _ Q2 Hx) as Hn. unfold concerns, req_of in Hn.
-  repeat split; intros; intros Hk; rewrite Hk in Hn; now apply Hn.
-Qed.
+Proof. exact held_between. Qed.
 Print Assumptions c07_held_while_paused.
 
 (** * A repeated pause keeps the generation and changes the max-pause for later arrivals only *)
